@@ -20,8 +20,8 @@ ASSUME = [
 ]
 
 P = {}
-def prop(pid, theorems, monitors, quick, thorough):
-    P[pid] = dict(theorems=theorems, monitors=monitors, plan=dict(quick=quick, thorough=thorough))
+def prop(pid, theorems, monitors, quick, thorough, **kw):
+    P[pid] = dict(theorems=theorems, monitors=monitors, plan=dict(quick=quick, thorough=thorough), **kw)
 
 prop("C01",
      ["C01_mutex", "C01_try_fails_while_held", "C01_failed_try_reports_none", "C01_wait_enqueues_while_held", "C01_waiter_blocked_while_held", "C01_witness"],
@@ -29,22 +29,26 @@ prop("C01",
      [fam("nolimit","H",1500), fam("nolimit","L",1500), fam("pool","P",1000), fam("dfs-lock2","H",4000), fam("dfs-cancel","H",4000),
       fam("evict","L",800,"monitor"), fam("stream","H",800,"monitor"), fam("expiry","L",800,"monitor")],
      [fam("nolimit","H",40000), fam("nolimit","L",40000), fam("pool","P",20000), fam("dfs-lock2","H",200000), fam("dfs-lock3","L",200000),
-      fam("dfs-cancel","H",200000), fam("evict","L",20000,"monitor"), fam("stream","H",20000,"monitor"), fam("expiry","L",20000,"monitor"), fam("mix","L",20000,"monitor")])
+      fam("dfs-cancel","H",200000), fam("evict","L",20000,"monitor"), fam("stream","H",20000,"monitor"), fam("expiry","L",20000,"monitor"), fam("mix","L",20000,"monitor")],
+     cosim_ignore="order,stamp")
 prop("C02",
      ["C02_only_guard_ops_change_values", "C02_guard_op_is_local", "C02_new_guard_shows_stored_value", "C02_witness"],
      ["C02."],
      [fam("nolimit","H",1500), fam("nolimit","L",1500), fam("dfs-lock2","L",4000), fam("evict","H",800,"monitor"), fam("stream","L",800,"monitor"), fam("mix","L",800,"monitor")],
-     [fam("nolimit","H",40000), fam("nolimit","L",40000), fam("dfs-lock2","L",200000), fam("dfs-lock3","H",200000), fam("evict","H",20000,"monitor"), fam("stream","L",20000,"monitor"), fam("mix","L",20000,"monitor")])
+     [fam("nolimit","H",40000), fam("nolimit","L",40000), fam("dfs-lock2","L",200000), fam("dfs-lock3","H",200000), fam("evict","H",20000,"monitor"), fam("stream","L",20000,"monitor"), fam("mix","L",20000,"monitor")],
+     cosim_ignore="order,stamp")
 prop("C04",
      ["C04_keys_exact", "C04_quiescent", "C04_count_reports_keys", "C04_keys_reports_keys", "C04_witness"],
      ["C04."],
      [fam("nolimit","H",1500), fam("nolimit","L",1500), fam("pool","P",1000), fam("dfs-cancel","H",4000), fam("mix","H",800,"monitor"), fam("evict","L",800,"monitor"), fam("stream","H",800,"monitor")],
-     [fam("nolimit","H",40000), fam("nolimit","L",40000), fam("pool","P",20000), fam("dfs-cancel","H",200000), fam("dfs-lock3","H",100000), fam("mix","H",20000,"monitor"), fam("evict","L",20000,"monitor"), fam("stream","H",20000,"monitor")])
+     [fam("nolimit","H",40000), fam("nolimit","L",40000), fam("pool","P",20000), fam("dfs-cancel","H",200000), fam("dfs-lock3","H",100000), fam("mix","H",20000,"monitor"), fam("evict","L",20000,"monitor"), fam("stream","H",20000,"monitor")],
+     cosim_ignore="order,stamp,value")
 prop("C12",
      ["C12_consume", "C12_consume_never_panics", "C12_consume_enabled"],
-     ["C12."],
+     ["C12.", "C13."],
      [fam("mix","H",1500), fam("mix","L",1500), fam("nolimit","H",1000), fam("stream","L",1000)],
-     [fam("mix","H",40000), fam("mix","L",40000), fam("nolimit","H",20000), fam("stream","L",20000), fam("evict","H",20000)])
+     [fam("mix","H",40000), fam("mix","L",40000), fam("nolimit","H",20000), fam("stream","L",20000), fam("evict","H",20000)],
+     cosim_ignore="order,stamp")
 prop("C13",
      ["C13_no_panic", "C13_runs_never_panic", "C13_slow_assertions_hold"],
      ["C13."],
@@ -56,14 +60,16 @@ prop("C13",
 prop("C03",
      ["C03_only_key_waits_block", "C03_absent_key_no_wait", "C03_free_key_no_wait", "C03_free_mutex_has_no_waiters",
       "C03_release_hands_over", "C03_handed_waiter_runs", "C03_waiter_never_detached", "C03_blocked_only_by_client_guards", "C03_witness"],
-     ["C14.lost_wakeup", "C03.", "C13.panic"],
-     [fam("dfs-lock3","H",3000), fam("dfs-lock2","L",4000), fam("nolimit","H",1500), fam("nolimit","L",1500), fam("dfs-cancel","H",4000), fam("dfs-stream","L",3000), fam("stream","H",800)],
-     [fam("dfs-lock3","H",200000), fam("dfs-lock3","L",200000), fam("dfs-lock2","L",200000), fam("nolimit","H",40000), fam("nolimit","L",40000), fam("dfs-cancel","H",200000), fam("dfs-stream","L",200000), fam("stream","H",20000), fam("stream","L",20000)])
+     ["C14.lost_wakeup", "C03.", "C13.hang"],
+     [fam("evict","H",1500,"monitor"), fam("evict","L",1500,"monitor"), fam("mix","L",1000,"monitor"), fam("dfs-lock3","H",3000), fam("dfs-lock2","L",4000), fam("nolimit","H",1500), fam("nolimit","L",1500), fam("dfs-cancel","H",4000), fam("dfs-stream","L",3000), fam("stream","H",800)],
+     [fam("evict","H",40000,"monitor"), fam("evict","L",40000,"monitor"), fam("mix","L",40000,"monitor"), fam("mix","H",40000,"monitor"), fam("dfs-lock3","H",200000), fam("dfs-lock3","L",200000), fam("dfs-lock2","L",200000), fam("nolimit","H",40000), fam("nolimit","L",40000), fam("dfs-cancel","H",200000), fam("dfs-stream","L",200000), fam("stream","H",20000), fam("stream","L",20000)],
+     cosim_ignore="order,stamp,value")
 prop("C06",
      ["C06_cancel_pending_lock", "C06_cancel_stream_entry", "C06_no_residue", "C06_witness"],
      ["C04.", "C12.", "C13.", "C06."],
      [fam("dfs-cancel","H",6000), fam("dfs-cancel","L",6000), fam("dfs-stream","L",4000), fam("dfs-stream","H",4000), fam("nolimit","H",1500), fam("stream","L",1500), fam("evict","L",800), fam("mix","L",800)],
-     [fam("dfs-cancel","H",300000), fam("dfs-cancel","L",300000), fam("dfs-stream","L",300000), fam("dfs-stream","H",300000), fam("nolimit","H",40000), fam("nolimit","L",40000), fam("stream","L",40000), fam("stream","H",40000), fam("evict","L",20000), fam("mix","L",20000), fam("pool","P",20000)])
+     [fam("dfs-cancel","H",300000), fam("dfs-cancel","L",300000), fam("dfs-stream","L",300000), fam("dfs-stream","H",300000), fam("nolimit","H",40000), fam("nolimit","L",40000), fam("stream","L",40000), fam("stream","H",40000), fam("evict","L",20000), fam("mix","L",20000), fam("pool","P",20000)],
+     cosim_ignore="order,stamp")
 prop("C07",
      ["C07_offered", "C07_no_callback", "C07_no_limit_no_callback", "C07_bound", "C07_witness"],
      ["C07."],
@@ -71,14 +77,14 @@ prop("C07",
      [fam("evict","H",60000), fam("evict","L",60000), fam("dfs-evict","L",300000), fam("dfs-evict","H",300000), fam("mix","H",20000,"monitor")])
 prop("C08",
      ["C08_all_locked_proceeds", "C08_never_waits", "C08_callback_holds_nothing", "C08_reentrant", "C08_error_propagates", "C08_witness"],
-     ["C08.", "C13."],
+     ["C08.", "C13.", "C07."],
      [fam("evict","H",2500), fam("evict","L",2500), fam("dfs-evict","L",4000), fam("dfs-evict","H",4000)],
      [fam("evict","H",60000), fam("evict","L",60000), fam("dfs-evict","L",300000), fam("dfs-evict","H",300000)])
 prop("C09",
      ["C09_offer_is_lru_prefix", "C09_lookup_promotes", "C09_only_the_subject_key_moves", "C09_witness"],
      ["C09."],
-     [fam("evict","L",3000), fam("dfs-evict","L",5000), fam("mix","L",1000)],
-     [fam("evict","L",100000), fam("dfs-evict","L",300000), fam("mix","L",40000)])
+     [fam("seq","L",4000), fam("evict","L",3000), fam("dfs-evict","L",5000), fam("mix","L",1000)],
+     [fam("seq","L",150000), fam("evict","L",100000), fam("dfs-evict","L",300000), fam("mix","L",40000)])
 prop("C10",
      ["C10_call_is_total", "C10_exact", "C10_stamp_is_unlock_time", "C10_tick", "C10_witness", "C10_witness_max"],
      ["C10.", "C13.panic"],
@@ -97,7 +103,7 @@ prop("C14",
      [fam("pool","P",150000)])
 prop("C15",
      ["C15_callback_panic_like_error", "C15_panic_reaches_caller", "C15_closure_panic", "C15_values_are_those_committed", "C15_still_consistent", "C15_witness"],
-     ["C02.", "C04.", "C12.", "C13.", "C15."],
+     ["C02.", "C04.", "C12.", "C13.", "C15.", "C08."],
      [fam("evict","H",2500), fam("evict","L",2500), fam("mix","H",1500), fam("mix","L",1500)],
      [fam("evict","H",60000), fam("evict","L",60000), fam("mix","H",40000), fam("mix","L",40000), fam("dfs-evict","L",200000)])
 
@@ -106,7 +112,8 @@ prop("C05",
      ["C05_guard_ops_refine_map", "C05_guard_ops_enabled", "C05_lock_free_key", "C05_variants_interchangeable", "C05_try_fails_when_locked", "C05_witness"],
      ["C02.", "C04.", "C12.", "C05."],
      [fam("seq","H",3000), fam("seq","L",3000), fam("nocancel","H",1500), fam("nocancel","L",1500)],
-     [fam("seq","H",100000), fam("seq","L",100000), fam("nocancel","H",40000), fam("nocancel","L",40000), fam("mix","H",20000)])
+     [fam("seq","H",100000), fam("seq","L",100000), fam("nocancel","H",40000), fam("nocancel","L",40000), fam("mix","H",20000)],
+     cosim_obs_is_oracle=True)
 
 plan = dict(allowed_axioms=[], trusted_base=TRUSTED, assumptions=ASSUME, properties=P)
 json.dump(plan, open(os.path.join(ROOT, "plan.json"), "w"), indent=1)
